@@ -886,6 +886,9 @@ package parser
 
 //@ func (p *Parser) parseLeafBooleanExpression
 //@   include ParseFrame
+// C02: '!operand' means unset / zero
+//@   exit [C02:not-flag] (result2 == nil && usedNotOperator && (result0.Type == token.FLAG || result0.Type == token.DEFEATED)) ==> (result0.Operator == token.EQ && result0.ComparisonValue == token.FALSE)
+//@   exit [C02:leaf-type] (result2 == nil && !isAutoVar) ==> (result0.Type == token.VAR || result0.Type == token.FLAG || result0.Type == token.DEFEATED)
 // the operand token names a real source line (it is what the line marker of the comparison is taken from; C16)
 //@   ensures [C16:operand-token] result2 == nil ==> TokLoc(result0.Operand)
 // an AutoVar leaf - with or without '!' - carries its command as preamble and compares a var (C11)
@@ -905,6 +908,11 @@ package parser
 
 //@ func (p *Parser) parseConditionVarOperator
 //@   include ParseFrame
+// C02: a bare var() operand means "non-zero"; otherwise the written comparison operator; value(...) forces a raw-value comparison
+//@   ensures [C02:var-bare] (old(p.curToken.Type) != token.GT && old(p.curToken.Type) != token.GTE && old(p.curToken.Type) != token.LT && old(p.curToken.Type) != token.LTE && old(p.curToken.Type) != token.EQ && old(p.curToken.Type) != token.NEQ)
+//@        ==> (result0 == nil && expression.Operator == token.NEQ && expression.ComparisonValue == "0" && p.curToken == old(p.curToken))
+//@   ensures [C02:var-op] (result0 == nil && (old(p.curToken.Type) == token.GT || old(p.curToken.Type) == token.GTE || old(p.curToken.Type) == token.LT || old(p.curToken.Type) == token.LTE || old(p.curToken.Type) == token.EQ || old(p.curToken.Type) == token.NEQ))
+//@        ==> (expression.Operator == old(p.curToken.Type) && (old(p.peekToken.Type) == token.VALUE ==> expression.ComparisonValueType == ast.StrictValueComparison))
 //@   requires expression != nil
 //@   modifies expression.Operator, expression.ComparisonValue, expression.ComparisonValueType
 //@   ensures [C20:stack-balanced] result0 == nil ==> (SameStack(p.breakStack, old(p.breakStack)) && SameStack(p.continueStack, old(p.continueStack)))
@@ -916,6 +924,9 @@ package parser
 
 //@ func (p *Parser) parseConditionFlagLikeOperator
 //@   include ParseFrame
+// C02: a bare flag()/defeated() operand means "is set" (== TRUE); with '==' / '!=' the written operator and TRUE/FALSE
+//@   ensures [C02:flag-bare] (old(p.curToken.Type) != token.EQ && old(p.curToken.Type) != token.NEQ) ==> (result0 == nil && expression.Operator == token.EQ && expression.ComparisonValue == token.TRUE && p.curToken == old(p.curToken))
+//@   ensures [C02:flag-cmp] (result0 == nil && (old(p.curToken.Type) == token.EQ || old(p.curToken.Type) == token.NEQ)) ==> (expression.Operator == old(p.curToken.Type) && expression.ComparisonValue == old(p.peekToken.Type) && (old(p.peekToken.Type) == token.TRUE || old(p.peekToken.Type) == token.FALSE))
 //@   requires expression != nil
 //@   modifies expression.Operator, expression.ComparisonValue, expression.ComparisonValueType
 //@   ensures [C20:stack-balanced] result0 == nil ==> (SameStack(p.breakStack, old(p.breakStack)) && SameStack(p.continueStack, old(p.continueStack)))
